@@ -148,7 +148,7 @@ def run(seed, tier, lean) -> Result:
     mcases, gcases = [], []
     for i in range(n):
         r = random.Random(rnd.getrandbits(48))
-        spec = LangGen(r, knobs={'dup_assoc_names': 0.4}).gen()
+        spec = LangGen(r, knobs={'dup_assoc_names': 0.4, 'reuse_fields': 0.6}).gen()
         mcases.append((spec, Gen(r, spec, WEIGHTS, explicit_attacker_ids=False, extras=False).gen(r.randint(4, 30))[:-1]))
         gcases.append(aghist.Gen(r, GW, nmax=r.choice([4, 7]), rich=True).gen(r.randint(5, 25))[:-1])
     mm = run_driver([{'op': 'neo4j_model', 'case': i, 'lang': lang_payload(s), 'ops': o} for i, (s, o) in enumerate(mcases)]) if lean['build_ok'] else None
